@@ -3,6 +3,7 @@
 package main
 
 import (
+	"net/url"
 	"fmt"
 	"encoding/base64"
 	"strings"
@@ -62,7 +63,7 @@ func init() {
 				E, R := vpI(g, "E"), vpI(g, "R")
 				mode := vpS(cm, "mode")
 				key := string(c.Cfg)
-				w, err := worlds.get(key, func() *vpCfg { return &vpCfg{Store: vpS(cm, "store"), Expire: &E, Refresh: R} })
+				w, err := worlds.get(key, func() *vpCfg { return &vpCfg{Store: vpS(cm, "store"), Expire: &E, Refresh: R, Htpasswd: mode == "form"} })
 				if err != nil {
 					env.emit(vpOut{ID: c.ID, Err: "world: " + err.Error()})
 					continue
@@ -129,6 +130,28 @@ func init() {
 							switch st.A {
 							case "login":
 								// every behaviour signs in as a user of its own, so that the provider's refresh grants can be attributed
+								if vpS(vpM(b.c.In, "cfg"), "mode") == "form" {
+									// a session from the htpasswd sign-in form: no tokens, nothing a provider could ever refresh
+									form := url.Values{"username": {"hpuser"}, "password": {"hppass"}}
+									cb := w.do(vpReq{Method: "POST", Target: w.prefix() + "/sign_in", Body: form.Encode(), Form: true})
+									b.jar.applyAll(cb)
+									if w.sessionCookieEffect(cb) != "set" {
+										b.dead = true
+										ev["dead"] = true
+										break
+									}
+									b.user = "-form-"
+									ev["served"] = true
+									sessMaxAge(cb)
+									if w.mr != nil {
+										if tk := b.jar.get(w.name); tk != nil {
+											if id := vpTicketID(tk.Value); id != "" && w.mr.Exists(id) {
+												ev["ttl"] = int(w.mr.TTL(id) / time.Second)
+											}
+										}
+									}
+									break
+								}
 								b.user = fmt.Sprintf("lt-%d", b.c.ID)
 								w.idp.addUser(b.user, vpUser{Sub: "sub-" + b.user, Email: b.user + "@example.com", Groups: []string{"g1"}, Username: b.user})
 								cb, err := w.login(b.jar, b.user, "")
